@@ -22,10 +22,12 @@ struct Scene {
     extent: Option<B>,
     clip_id: Option<(String, B)>,
     n: usize,
+    /// (id, own box) of shapes generated so far: targets for `<use>`
+    targets: Vec<(String, B)>,
 }
 
 /// one rendered (or not) item at absolute coordinates; returns (node, contributed box)
-fn item(rng: &mut Rng, sc: &mut Scene, depth: usize) -> (X, Option<B>) {
+fn item_inner(rng: &mut Rng, sc: &mut Scene, depth: usize) -> (X, Option<B>) {
     sc.n += 1;
     let id = format!("i{}", sc.n);
     let g = |rng: &mut Rng| rng.range(-60, 60) as f64 / 2.0;
@@ -99,6 +101,37 @@ fn item(rng: &mut Rng, sc: &mut Scene, depth: usize) -> (X, Option<B>) {
     }
 }
 
+/// as `item_inner`, and sometimes a `<use>` of an earlier rect / line / polyline / path with x and / or y
+/// (a missing one is 0): the instance's box is the target's own box moved by (x, y)
+fn item(rng: &mut Rng, sc: &mut Scene, depth: usize) -> (X, Option<B>) {
+    if !sc.targets.is_empty() && rng.chance(1, 7) {
+        sc.n += 1;
+        let id = format!("i{}", sc.n);
+        let (tid, tb) = sc.targets[rng.below(sc.targets.len())].clone();
+        let (dx, dy) = (rng.range(-40, 40) as f64 / 2.0, rng.range(-40, 40) as f64 / 2.0);
+        let href = format!("#{tid}");
+        let mut attrs: Vec<(&str, String)> = vec![("id", id.clone()), ("href", href)];
+        let (mut mx, mut my) = (0.0, 0.0);
+        match rng.below(4) {
+            0 => { attrs.push(("x", f(dx))); mx = dx; }
+            1 => { attrs.push(("y", f(dy))); my = dy; }
+            2 => {}
+            _ => { attrs.push(("x", f(dx))); attrs.push(("y", f(dy))); mx = dx; my = dy; }
+        }
+        let av: Vec<(&str, &str)> = attrs.iter().map(|(k, v)| (*k, v.as_str())).collect();
+        return (X::leaf("use", &av), Some([tb[0] + mx, tb[1] + my, tb[2] + mx, tb[3] + my]));
+    }
+    let (n, b) = item_inner(rng, sc, depth);
+    if let (X::El { name, attrs, kids: None }, Some(bx)) = (&n, b) {
+        if matches!(name.as_str(), "rect" | "line" | "polyline" | "polygon" | "path") && !attrs.iter().any(|(k, _)| k == "text") {
+            if let Some((_, id)) = attrs.iter().find(|(k, _)| k == "id") {
+                sc.targets.push((id.clone(), bx));
+            }
+        }
+    }
+    (n, b)
+}
+
 struct Case {
     doc: Vec<X>,
     border: u16,
@@ -108,7 +141,7 @@ struct Case {
 }
 
 fn gen_case(rng: &mut Rng) -> Case {
-    let mut sc = Scene { nodes: vec![], extent: None, clip_id: None, n: 0 };
+    let mut sc = Scene { nodes: vec![], extent: None, clip_id: None, n: 0, targets: vec![] };
     if rng.chance(1, 3) {
         let (x, y, w, h) = (rng.range(-20, 20) as f64, rng.range(-20, 20) as f64, 2.0 * rng.range(3, 20) as f64, 2.0 * rng.range(3, 20) as f64);
         let cp = X::node("defs", &[], vec![X::node("clipPath", &[("id", "clip")], vec![X::leaf("rect", &[("x", &f(x)), ("y", &f(y)), ("width", &f(w)), ("height", &f(h))])])]);
